@@ -585,7 +585,8 @@ Covers `α = 1/q mod x^⌈len/2⌉`, both ways of forming `α·p` (plain low pro
 `(1+α')(1+β')` shortcut), both ways of forming `γ`, and the final correction. -/
 theorem divModXn_spec {o : Ops α} {φ : α → R} (h : HomE o φ) (c : Ctx) (hmm : MiddleSpec c o φ)
     (p q : List α) (tmplen : Nat) (hl : p.length = q.length) (h1 : 1 ≤ q.length)
-    (h62 : q.length ≤ 2 ^ 62) (ht : 5 * q.length ≤ tmplen) (ht8 : 8 * (q.length - q.length / 2) ≤ tmplen)
+    (h62 : q.length ≤ 2 ^ 62) (ht : 5 * q.length ≤ tmplen)
+    (ht8 : 2 ≤ q.length → 8 * (q.length - q.length / 2) ≤ tmplen)
     (hfit : Fits c q.length) (hinv : ∃ i, o.inv (q.getD 0 o.zero) = some i) :
     ∃ z, divModXn c o p q tmplen = some z ∧ z.length = q.length ∧
       ∀ k, k < q.length → (poly (q.map φ) * poly (z.map φ)).coeff k = (poly (p.map φ)).coeff k := by
@@ -619,6 +620,7 @@ theorem divModXn_spec {o : Ops α} {φ : α → R} (h : HomE o φ) (c : Ctx) (hm
     set L := qrest.length + 1 with hL
     have hLp : prest.length + 1 = L := by omega
     have hL2 : 2 ≤ L := by omega
+    replace ht8 := ht8 hL2
     set u := L - L / 2 with hu
     set hh := L / 2 with hhh
     have hu1 : 1 ≤ u := by omega
